@@ -30,10 +30,11 @@ MAGIC = {".gz": b"\x1f\x8b", ".bz2": b"BZh", ".xz": b"\xfd7zXZ\x00"}
 OPENERS = {".gz": gzip.open, ".bz2": bz2.open, ".xz": lzma.open}
 # (the last entries: characters str.splitlines() treats as line boundaries although CSV does not)
 SPECIAL = ["a,b", 'q"q', "l\nm", "r\r\ns", "c\rd", "t\tu", "p;q", "v|w", " lead", "trail ", "'", "é", "日本", "😀", "x" * 60,
-           "v\x0bt", "f\x0cf", "s\x1cs", "g\x1dg", "r\x1er", "n\x85l", "u\u2028l", "p\u2029s"]
+           "v\x0bt", "f\x0cf", "s\x1cs", "g\x1dg", "r\x1er", "n\x85l", "u\u2028l", "p\u2029s",
+           "C:\\temp\\new", "tail\\", "\\", 'b\\"q', "\\n"]          # backslashes are ordinary characters
 LATIN = ["a,b", 'q"q', "l\nm", "r\r\ns", "c\rd", "t\tu", "p;q", "v|w", " lead", "trail ", "'", "é", "ÿ",
-         "v\x0bt", "f\x0cf", "s\x1cs", "n\x85l"]
-NAMES = ["a", "b", "c d", "é", "x,y", "n1", 'q"', "items", " a", "a ", " b ", "A"]      # padded names differ from unpadded ones
+         "v\x0bt", "f\x0cf", "s\x1cs", "n\x85l", "C:\\temp", "tail\\"]
+NAMES = ["a", "b", "c d", "é", "x,y", "n1", 'q"', "items", " a", "a ", " b ", "A", "back\\slash", "end\\"]      # padded names differ from unpadded ones
 
 KINDS = {
     "pickle": ["f", "i", "b", "s", "u", "d", "t", "td", "o", "ob", "f32", "i32"],
